@@ -19,6 +19,12 @@ CLAIMED = {
     "C06": dict(
         text="Theorems: for every struct the StructVerifier model accepts (any nesting depth, any array counts, object fields), the natural-alignment layout of the emitted type (SysV x86-64 / repr(C), as modelled in Layout.v) has every field at the sum of the sizes before it and sizeof equal to the assumed size, along the whole dependency order; the primitive size/alignment tables regenerated from ast.rs are the ABI's. Tie: L0 sizes (implementation vs model vs verifier), sizeof/alignof/offsetof probes of the emitted types with gcc, clang, g++, clang++ and rustc against the Spec, and validation of Layout.v against gcc/clang on arbitrary (also padded) structs every run.",
         ref="7 (C06)", technique="Coq proof (no-padding theorem over the dependency order) + compiler probes + differential correspondence"),
+    "C09": dict(
+        text="Theorems over the front-end model: acceptance implies unique struct/interface names and unique constant names over all loaded files (both entry points), unique parameters (main file), complete acyclic inheritance chains, verified struct layout along the dependency order, and (command-line pipeline) the object-array rules and member-name uniqueness along every chain. The rules that are not enforced are established by machine-checked witnesses (two object arrays, input array of a small object struct, library entry point without InterfaceVerifier, constant vs type name, declarations of included files), which are the known classes. Tie: every single-violation mutant goes through the real binary, the replayed CLI and library pipelines and idlc::Language::generate, and the model is evaluated on the same ASTs.",
+        ref="7 (C09)", technique="Coq proofs of rule soundness + refutation witnesses + mutation-based differential correspondence"),
+    "C10": dict(
+        text="Partial proof: completeness of each validation step of the model (symbol table, duplicate-parameter pass, interface rules, struct verifier): whatever satisfies the enforced rule is accepted by that step, for all inputs. The composition over the whole pipeline and the four backends is decided by running generated valid file sets and their declaration-order / file-placement variants through every backend and flag set, with the model evaluated on the same ASTs.",
+        ref="7 (C10)", technique="Coq proofs of per-step completeness (partial) + exhaustive-by-generation acceptance runs over backends and flags"),
 }
 NOTE = ("Trusted: Coq 8.16.1 kernel (vm_compute used; no native_compute), no axioms; lib/translate.py; the harness crate; "
         "python driver and scrapers. Modelled rather than verified: all of /repo (theorems are about coq/theories; the tie is "
